@@ -181,6 +181,9 @@ def run_v(res, unit_files, rlimit=None, filter_units=None):
         oid = o["id"]
         st = "discharged"
         detail = None
+        if o.get("precomputed"):
+            res.add_ob(id=oid, unit=o["unit"], kind=o["kind"], text=o["text"], backend=o.get("backend"), status=o["precomputed"], detail=o.get("detail"))
+            continue
         if oid in failed:
             st, detail = "failed", failed[oid]
         elif o["kind"] == "implicit" and oid in safety_failed:
